@@ -153,6 +153,9 @@ func (ft *FuncTr) callWith(st *State, at *Term, in ssa.Instruction, c *ssa.CallC
 	if sc := c.StaticCallee(); sc != nil && calleeName(sc) == "sort.Slice" {
 		return ft.sortSlice(st, at, in, c, args)
 	}
+	if sc := c.StaticCallee(); sc != nil && calleeName(sc) == "sort.Strings" {
+		return ft.sortStrings(st, at, in, c, args)
+	}
 	sig := c.Signature()
 	name, con, fn := ft.w.resolveCallee(c)
 	var argT []*Term
@@ -515,6 +518,24 @@ func (ft *FuncTr) appendBuiltin(st *State, at *Term, in ssa.Instruction, c *ssa.
 			Eq(Select(after, SlcElemAddr(res, jq)), Select(before, SlcElemAddr(s, jq)))), []*Term{SlcElemAddr(res, jq)}, []*Term{SlcElemAddr(s, jq)}))
 		ft.assume(at, Forall([]Bound{{"aj", SInt}}, Implies(And(Le(IntLit(0), jq), Lt(jq, SlcLen(add))),
 			Eq(Select(after, SlcElemAddr(res, Add(SlcLen(s), jq))), Select(before, SlcElemAddr(add, jq)))), []*Term{SlcElemAddr(add, jq)}))
+		if ef := ft.h.elemsFrame(before, after, tac); ef != nil {
+			ft.assume(at, ef)
+		}
+		if elemsSupported(srt.V) {
+			// derived: the element set of the result is the union of the element sets of the operands
+			xv := &Term{"ax", srt.V}
+			er := Select(ft.h.elemsOf(after, res, srt.V), xv)
+			addSet := Select(ft.h.elemsOf(before, add, srt.V), xv)
+			if vs := ft.varargsElems(st, c.Args[1], before); vs != nil {
+				// append(s, x1, ..., xn): the added elements are known
+				var ds []*Term
+				for _, v := range vs {
+					ds = append(ds, Eq(xv, v))
+				}
+				addSet = Or(ds...)
+			}
+			ft.assume(at, Forall([]Bound{{"ax", srt.V}}, Eq(er, Or(Select(ft.h.elemsOf(before, s, srt.V), xv), addSet)), []*Term{er}))
+		}
 		ft.h.setArr(st, an, after)
 	}
 	return Val{T: res}, nil
@@ -559,6 +580,9 @@ func (ft *FuncTr) copyBuiltin(st *State, at *Term, in ssa.Instruction, c *ssa.Ca
 		jq := &Term{"cj", SInt}
 		ft.assume(at, Forall([]Bound{{"cj", SInt}}, Implies(And(Le(IntLit(0), jq), Lt(jq, n)),
 			Eq(Select(after, SlcElemAddr(dst, jq)), Select(before, SlcElemAddr(src, jq)))), []*Term{SlcElemAddr(dst, jq)}, []*Term{SlcElemAddr(src, jq)}))
+		if ef := ft.h.elemsFrame(before, after, SlcArr(dst)); ef != nil {
+			ft.assume(at, ef)
+		}
 		ft.h.setArr(st, an, after)
 	}
 	return Val{T: n}, nil
@@ -689,4 +713,30 @@ func (ft *FuncTr) isRangeFuncCall(c *ssa.CallCommon) bool {
 		return false
 	}
 	return isIterSeq(c.Value.Type())
+}
+
+// varargsElems: for append(s, x1, ..., xn) go/ssa builds a fresh [n]T array holding the xi and slices it;
+// returns the xi as read from memory array m, or nil if the argument has another shape.
+func (ft *FuncTr) varargsElems(st *State, arg ssa.Value, m *Term) []*Term {
+	sl, ok := arg.(*ssa.Slice)
+	if !ok || sl.Low != nil || sl.High != nil || sl.Max != nil {
+		return nil
+	}
+	al, ok := sl.X.(*ssa.Alloc)
+	if !ok || al.Comment != "varargs" {
+		return nil
+	}
+	at, ok := al.Type().(*types.Pointer).Elem().Underlying().(*types.Array)
+	if !ok || at.Len() > 8 || isStructT(at.Elem()) {
+		return nil
+	}
+	pv := ft.val(al)
+	if pv.T == nil {
+		return nil
+	}
+	var out []*Term
+	for i := int64(0); i < at.Len(); i++ {
+		out = append(out, Select(m, PElem(pv.T, IntLit(i))))
+	}
+	return out
 }
